@@ -326,6 +326,7 @@ def canonicalise(tree: ast.AST) -> ast.AST:
             return node
     T().visit(tree)
     _fold_simple_generators(tree)
+    _fold_while_counters(tree)
     _split_tuple_assigns(tree)
     _fold_append_loops(tree)
     _inline_adjacent_temporaries(tree)
@@ -410,6 +411,91 @@ def _fold_simple_generators(tree: ast.AST) -> None:
                     st.remove(g)
                     if not st:
                         st.append(ast.copy_location(ast.Pass(), g))
+        ast.fix_missing_locations(fn)
+
+
+def _fold_while_counters(tree: ast.AST) -> None:
+    """`i = 0` / [`n = len(X)`] / `while i < n: [g = X[i];] BODY; i += 1` — a counter that is only read in BODY, no `continue`, nothing else writes i, n or X —
+    is `for i, g in enumerate(X): BODY` (or `for i in range(n): BODY` when the element is not taken first)."""
+    for fn in ast.walk(tree):
+        if not isinstance(fn, (ast.FunctionDef, ast.AsyncFunctionDef)):
+            continue
+        for holder in ast.walk(fn):
+            for field in ('body', 'orelse', 'finalbody'):
+                st = getattr(holder, field, None)
+                if not isinstance(st, list):
+                    continue
+                k = 0
+                while k < len(st):
+                    w = st[k]
+                    k += 1
+                    if not isinstance(w, ast.While) or w.orelse or len(w.body) < 2:
+                        continue
+                    t = w.test
+                    if not (isinstance(t, ast.Compare) and len(t.ops) == 1 and isinstance(t.left, ast.Name)):
+                        continue
+                    # canonical comparison order may have put the counter on either side
+                    if isinstance(t.ops[0], ast.Lt):
+                        i_nm, bound = t.left.id, t.comparators[0]
+                    elif isinstance(t.ops[0], ast.Gt) and isinstance(t.comparators[0], ast.Name):
+                        i_nm, bound = t.comparators[0].id, t.left
+                    else:
+                        continue
+                    last = w.body[-1]
+                    if not (isinstance(last, ast.AugAssign) and isinstance(last.op, ast.Add) and isinstance(last.target, ast.Name) and last.target.id == i_nm
+                            and isinstance(last.value, ast.Constant) and last.value.value == 1):
+                        continue
+                    inner = w.body[:-1]
+                    if any(isinstance(x, ast.Continue) for b in inner for x in ast.walk(b)):
+                        continue
+                    if any(isinstance(x, ast.Name) and x.id == i_nm and isinstance(x.ctx, (ast.Store, ast.Del)) for b in inner for x in ast.walk(b)):
+                        continue
+                    # the counter starts at 0 just before (optionally with the bound's own definition in between)
+                    pre = st[:k - 1]
+                    j = len(pre) - 1
+                    n_def = None
+                    if j >= 0 and isinstance(bound, ast.Name) and isinstance(pre[j], ast.Assign) and len(pre[j].targets) == 1 and isinstance(pre[j].targets[0], ast.Name) \
+                            and pre[j].targets[0].id == bound.id:
+                        n_def = pre[j]
+                        j -= 1
+                    if not (j >= 0 and isinstance(pre[j], ast.Assign) and len(pre[j].targets) == 1 and isinstance(pre[j].targets[0], ast.Name) and pre[j].targets[0].id == i_nm
+                            and isinstance(pre[j].value, ast.Constant) and pre[j].value.value == 0 and pre[j].value.value is not False):
+                        # `n = len(X)` then `i = 0`
+                        if n_def is None and j >= 1 and isinstance(bound, ast.Name) and isinstance(pre[j], ast.Assign) and False:
+                            pass
+                        continue
+                    i_def = pre[j]
+                    # the counter is not read after the loop in this statement list
+                    if any(isinstance(x, ast.Name) and x.id == i_nm for b in st[k:] for x in ast.walk(b)):
+                        continue
+                    bound_e = n_def.value if n_def is not None else bound
+                    seq = None
+                    if isinstance(bound_e, ast.Call) and isinstance(bound_e.func, ast.Name) and bound_e.func.id == 'len' and len(bound_e.args) == 1 and isinstance(bound_e.args[0], ast.Name):
+                        seq = bound_e.args[0].id
+                    written = {x.id for b in inner for x in ast.walk(b) if isinstance(x, ast.Name) and isinstance(x.ctx, (ast.Store, ast.Del))}
+                    if (seq is not None and seq in written) or (isinstance(bound, ast.Name) and bound.id in written):
+                        continue
+                    if n_def is not None and any(isinstance(x, ast.Name) and x.id == bound.id for b in inner + st[k:] for x in ast.walk(b)):
+                        n_keep = True
+                    else:
+                        n_keep = False
+                    first = inner[0]
+                    if seq is not None and isinstance(first, ast.Assign) and len(first.targets) == 1 and isinstance(first.targets[0], ast.Name) \
+                            and isinstance(first.value, ast.Subscript) and isinstance(first.value.value, ast.Name) and first.value.value.id == seq \
+                            and isinstance(first.value.slice, ast.Name) and first.value.slice.id == i_nm and len(inner) >= 2:
+                        target = ast.Tuple(elts=[ast.Name(id=i_nm, ctx=ast.Store()), ast.Name(id=first.targets[0].id, ctx=ast.Store())], ctx=ast.Store())
+                        it = ast.Call(func=ast.Name(id='enumerate', ctx=ast.Load()), args=[ast.Name(id=seq, ctx=ast.Load())], keywords=[])
+                        body = inner[1:]
+                    else:
+                        target = ast.Name(id=i_nm, ctx=ast.Store())
+                        it = ast.Call(func=ast.Name(id='range', ctx=ast.Load()), args=[copy.deepcopy(bound_e)], keywords=[])
+                        body = inner
+                    loop = ast.copy_location(ast.For(target=target, iter=it, body=body, orelse=[], type_comment=None), w)
+                    st[k - 1] = loop
+                    drop = [i_def] + ([n_def] if n_def is not None and not n_keep else [])
+                    for d in drop:
+                        st.remove(d)
+                        k -= 1
         ast.fix_missing_locations(fn)
 
 
@@ -827,7 +913,7 @@ def _inline_single_call_helpers(trees: tp.Sequence[ast.AST]) -> None:
                             for x in ast.walk(s):
                                 if isinstance(x, ast.Call) and x is not top_call and id(x) not in blocked:
                                     nm_x = x.func.attr if isinstance(x.func, ast.Attribute) else (x.func.id if isinstance(x.func, ast.Name) else None)
-                                    if nm_x in cands:
+                                    if nm_x in cands and not _own_yields(cands[nm_x][0]):
                                         found = x
                                         break
                             if found is not None:
@@ -844,6 +930,16 @@ def _inline_single_call_helpers(trees: tp.Sequence[ast.AST]) -> None:
                                 i -= 1          # revisit: the inserted assignment is now at this position
                                 continue
                         call = getattr(s, 'value', None) if isinstance(s, (ast.Assign, ast.Return, ast.Expr)) else None
+                        # a generator helper drained on the spot: `yield from helper(...)` / `sink.extend(helper(...))`
+                        mode, sink = 'value', None
+                        if isinstance(s, ast.Expr) and isinstance(call, ast.YieldFrom) and isinstance(call.value, ast.Call):
+                            call, mode = call.value, 'yieldfrom'
+                        elif isinstance(s, ast.Expr) and isinstance(call, ast.Call) and isinstance(call.func, ast.Attribute) and call.func.attr == 'extend' \
+                                and isinstance(call.func.value, ast.Name) and len(call.args) == 1 and not call.keywords and isinstance(call.args[0], ast.Call):
+                            c0 = call.args[0]
+                            nm0 = c0.func.attr if isinstance(c0.func, ast.Attribute) else (c0.func.id if isinstance(c0.func, ast.Name) else None)
+                            if nm0 in cands and _own_yields(cands[nm0][0]):
+                                sink, call, mode = call.func.value.id, c0, 'extend'
                         if not isinstance(call, ast.Call):
                             continue
                         f = call.func
@@ -859,9 +955,17 @@ def _inline_single_call_helpers(trees: tp.Sequence[ast.AST]) -> None:
                         if decos - {'staticmethod', 'classmethod'}:
                             continue
                         a = h.args
-                        if a.vararg or a.kwarg or a.posonlyargs or any(isinstance(x, (ast.Yield, ast.YieldFrom, ast.Await, ast.Global, ast.Nonlocal, ast.FunctionDef, ast.Lambda))
+                        if a.vararg or a.kwarg or a.posonlyargs or any(isinstance(x, (ast.Await, ast.Global, ast.Nonlocal, ast.FunctionDef, ast.Lambda))
                                                                           for b in h.body for x in ast.walk(b)):
                             continue
+                        is_gen = _own_yields(h)
+                        if is_gen != (mode != 'value'):
+                            continue
+                        if is_gen:
+                            stmt_yields = {id(x.value) for b in h.body for x in ast.walk(b) if isinstance(x, ast.Expr) and isinstance(x.value, (ast.Yield, ast.YieldFrom))}
+                            if any(isinstance(x, ast.Return) or (isinstance(x, (ast.Yield, ast.YieldFrom)) and id(x) not in stmt_yields) or
+                                   (isinstance(x, ast.Yield) and x.value is None) for b in h.body for x in ast.walk(b)):
+                                continue
                         if any(isinstance(x, ast.Starred) for x in call.args) or any(k.arg is None for k in call.keywords):
                             continue
                         params = [x.arg for x in a.args]
@@ -913,7 +1017,19 @@ def _inline_single_call_helpers(trees: tp.Sequence[ast.AST]) -> None:
                                 if not (isinstance(b, ast.Expr) and isinstance(b.value, ast.Constant) and isinstance(b.value.value, str))]
                         pre = [ast.copy_location(ast.Assign(targets=[ast.Name(id=prm + suffix, ctx=ast.Store())], value=copy.deepcopy(arg)), s)
                                for prm, arg in binding.items() if prm not in direct]
-                        if isinstance(s, ast.Return):
+                        if mode == 'extend':
+                            class Y(ast.NodeTransformer):
+                                def visit_Expr(self, node):
+                                    v = node.value
+                                    if isinstance(v, (ast.Yield, ast.YieldFrom)):
+                                        meth = 'append' if isinstance(v, ast.Yield) else 'extend'
+                                        return ast.copy_location(ast.Expr(value=ast.Call(func=ast.Attribute(value=ast.Name(id=sink, ctx=ast.Load()), attr=meth, ctx=ast.Load()),
+                                                                                           args=[v.value], keywords=[])), node)
+                                    return node
+                            new = pre + [Y().visit(b) for b in body]
+                        elif mode == 'yieldfrom':
+                            new = pre + body
+                        elif isinstance(s, ast.Return):
                             new = pre + body
                             if not any(isinstance(x, ast.Return) for x in ast.walk(body[-1])) if body else True:
                                 new.append(ast.copy_location(ast.Return(value=None), s))
